@@ -9,4 +9,5 @@ func genMore() {
 	genBuilderTables()
 	genTrackConsts()
 	genMapRanges()
+	genShipped()
 }
